@@ -781,7 +781,12 @@ def _handle_event_matching(
             and event.arguments["flow_id"] == flow_state.flow_id
             and head.position == 0
         ):
-            _start_flow(state, flow_state, event.arguments)
+            try:
+                _start_flow(state, flow_state, event.arguments)
+            except Exception as e:
+                # E.g. more positional arguments than the flow takes: only the flow that
+                # cannot be started (and with it the flow that wanted to start it) fails
+                _fail_flow_with_runtime_error(state, head, e)
         elif event.name == InternalEvents.FLOW_STARTED:
             # Add started flow to active scopes
             # TODO: Make this independent from matching to FlowStarted event since otherwise it could be added elsewhere
